@@ -120,6 +120,11 @@ def single_world(case):
     a = Core.Agent('a', model)
     nargs = 2 if kind == 'grid' else 3
     env.add_agent(a, *([0] * nargs))
+    # a second world (other model) holding an agent with the same id at a fixed spot, queried in between
+    m2 = Core.Model(seed=2)
+    env2 = m2.environment = mk(m2, kind, dims, not wrap)
+    b = Core.Agent('a', m2)
+    env2.add_agent(b, *([1] * nargs))
     av, qv = zip(*[axis_values(E, cont, full) for E in d3])
     combos = leeway_combos()
     only = case.get('only')
@@ -129,6 +134,8 @@ def single_world(case):
     cn = Canon(drop={('DiscreteWorld', 'cells'), ('GridWorld', 'cells')})
     for p in itertools.product(*av):
         env.move_to(a, *p[:nargs])
+        if env2.get_agents_at(1, 1, 1 if nargs == 3 else 0, 0) != [b]:
+            raise Violation('a query in a second world was disturbed by the world under test')
         snap = cn(model, a)
         for q in itertools.product(*qv):
             for lw in combos:
@@ -200,6 +207,12 @@ class Population:
         w.env = w.model.environment = mk(w.model, self.kind, self.dims, self.wrap)
         w.agents = {k: Core.Agent(k, w.model) for k in self.keys}
         w.order = []
+        # bystander world: same agent ids, fixed positions, queried in every state
+        w.m2 = Core.Model(seed=2)
+        w.env2 = w.m2.environment = mk(w.m2, self.kind, self.dims, self.wrap)
+        w.by = [Core.Agent(k, w.m2) for k in ('c', 'a')]
+        for i, ag in enumerate(w.by):
+            w.env2.add_agent(ag, *([i] * self.nargs))
         w.known_now = None
         w.last = None
         return w
@@ -233,6 +246,9 @@ class Population:
             w.order.remove(op[1])
 
     def check(self, w):
+        if w.env2.get_agents_at(0, 0, 0, 1) != w.by or w.env2.get_agents_at(1, 1, 1 if self.nargs == 3 else 0, 0) != \
+                w.by[1:]:
+            raise Violation('queries in a bystander world are disturbed by the world under test')
         res = [(k, w.agents[k][PC].xyz()) for k in w.order]
         before = self.cn(w.model, [w.agents[k] for k in self.keys])
         answers = []
